@@ -105,6 +105,8 @@ impl Group for C10Sim {
             c("sinv 0 100000|sinv 0 1000|sinv 0 100000|sinv 1 0|sinv 1 5000|sinv 1 0|restart|sinv 0 1000"),
             // stubs age out at the heartbeat (more than six blocks); ids can be created again, forgetting them is a no-op
             c("newch 2|newch 3|blkn 6|hb|blk+ g|hb|newch 2|forget 2|forget 1|newch 3|blk- g|blk- g|hb|newch 1"),
+            // no remembered header below the tip (fresh from the checkpoint): refused removals must leave the window empty
+            c("world bare|blk- b|blk+ b|blk- b|blk+ g|blk- b|blk- g|blk- b|restart|blk- b"),
             // the channel map fills up: creation (also of an existing stub) is refused until one is forgotten
             c("newch 1|newch 2|newch 3|newch 4|newch 2|forget 2|newch 4|newch 5|restart|newch 5|forget 1|newch 5"),
             c("world perm|newch 2|newch 3|newch 5|newch 4|newch 3|forget 3|newch 4"),
@@ -119,6 +121,12 @@ impl Group for C10Sim {
         let mut ops = gen_ops(rng, len);
         if rng.chance(1, 4) { ops.insert(0, "world perm".to_string()); }
         else if rng.chance(1, 10) { ops.insert(0, "world nocp".to_string()); }
+        else if rng.chance(1, 10) {
+            // a tracker that remembers no header below its tip: refused removals and additions first
+            ops.insert(0, "world bare".to_string());
+            ops.insert(1, format!("blk- b"));
+            if rng.chance(1, 2) { ops.insert(2, "blk+ b".to_string()); }
+        }
         else if rng.chance(1, 6) {
             // the real protocol handler on a channel it can address: holder-side requests become wire messages
             ops.insert(0, "world h".to_string());
